@@ -18,7 +18,7 @@
 """
 import json, os, re
 
-from .. import gen, ostypegen, build_coq, build_ml, build_go, run_driver_sharded, sh, GOENV, ML, Violation
+from .. import ROOT, gen, ostypegen, build_coq, build_ml, build_go, run_driver_sharded, sh, GOENV, ML, Violation
 from ..props import CHECKS
 
 TAG = "avfs_setostype"
@@ -287,19 +287,23 @@ def atie_part(ctx):
     if any(o.startswith("NOTYPE") for o in s.observed):
         ctx.violation("ostype", "MemFS built with -tags %s does not take the requested OS type" % TAG,
                       {"c17": desc("ostype", "ostype", TAG), "case": s.cases[0], "observed": s.observed[0]})
-    # panics on a missing volume (known finding): the fixed witness is replayed every run; the model predicts the
-    # panic too (it mirrors the nil dereference), which does not make it less of a defect
-    e = next((k for k in ctx.kf if k["id"] == KF_UNC_PANIC), None)
-    if e is not None and e.get("witness"):
-        wrun = Stream(ctx, "ostype-witness", "ostype", replay_lines=[e["witness"]])
+    # fixed witnesses (corpus/C17-witness.cases): the calls that used to panic on a path that is exactly a missing
+    # volume (repaired in /repo); replayed every run, must agree with the model and must not panic
+    wf = os.path.join(ROOT, "corpus", "C17-witness.cases")
+    if os.path.exists(wf):
+        wl = [l.strip() for l in open(wf) if l.strip() and not l.startswith("#")]
+        wrun = Stream(ctx, "ostype-witness", "ostype", replay_lines=wl)
         if wrun.ok:
-            ctx.coverage["streams"]["ostype-witness"] = {"case": e["witness"], "observed": wrun.observed[0], "model": wrun.model[0]}
-            if wrun.observed[0].split(" | ")[-1].startswith("PANIC"):
-                ctx.known_finding(e["id"], e["what"])
-            if wrun.mism:
-                report_model_mismatches(ctx, wrun, "the witness of the missing-volume panic behaves differently from the model (%d)")
+            ctx.coverage["streams"]["ostype-witness"] = {"cases": len(wl), "mismatches": len(wrun.mism),
+                                                         "observed": wrun.observed[:len(wl)]}
+            wp = [(c, o) for c, o in zip(wrun.cases, wrun.observed) if o.split(" | ")[-1].startswith("PANIC")]
+            for c, o in wp[:1]:
+                ctx.violation("ostype-witness", "a call on a path that is exactly a missing volume panics on a Windows-typed MemFS (%d witnesses)" % len(wp),
+                              {"c17": desc("ostype-witness", "ostype", TAG), "case": " | ".join(c.split(" | ")[:len(o.split(" | ")) + 1]), "observed": o})
+            if wrun.mism and not wp:
+                report_model_mismatches(ctx, wrun, "the fixed witnesses (missing volume) behave differently from the model (%d)")
     panics = [(c, o) for c, o in zip(s.cases, s.observed) if o.split(" | ")[-1].startswith("PANIC")]
-    if panics and e is None:
+    if panics:
         c, o = panics[0]
         ctx.violation("ostype", "a call on a Windows-typed MemFS panics (%d histories)" % len(panics),
                       {"c17": desc("ostype", "ostype", TAG), "case": " | ".join(c.split(" | ")[:len(o.split(" | ")) + 1]), "observed": o})
